@@ -3,7 +3,9 @@
       - unique on the chain (by Hash()),
       - allowed at the block's height and time by its Expire field,
       - correctly signed,
-      - pays the fee for its size, within the cap, with the chain's id.
+      - pays the fee for its size, within the cap, with the chain's id; a transaction with a
+        GroupCount stands in its block together with its whole group, in order, and the group's
+        first member pays for all of them.
     Executable: this is the violation oracle applied to the chain read back from the node. *)
 From Coq Require Import List ZArith NArith Bool.
 From C33 Require Import C28.Model.
@@ -28,8 +30,59 @@ Definition spec_fee (c : cfg) (t : tx) : bool :=
           && ((tsize t / 1000 + 1) * c_minfee c <=? tfee t)
           && ((c_maxfee c <=? 0) || (tfee t <=? c_maxfee c)))).
 
+(** a transaction that is not part of a group *)
+Definition spec_single (c : cfg) (t : tx) : bool :=
+  (tgc t =? 0) && N.eqb (thdr t) 0 && N.eqb (tnext t) 0 && spec_fee c t.
+
 Definition spec_tx (c : cfg) (h bt : Z) (t : tx) : bool :=
-  spec_live c (texp t) h bt && spec_fee c t.
+  spec_live c (texp t) h bt && spec_single c t.
+
+(** a whole group: the first member's Header is its own Hash() and all members carry it, every
+    GroupCount is the number of members, Next names the following member and ends with nil;
+    only the first member has a fee, and it covers the per-size minimum of all members, within
+    the cap; no member exceeds the size limit; the chain id is the chain's when the strict
+    chain-id rule is active (group members were never compared otherwise) *)
+Fixpoint spec_links (g : list tx) : bool :=
+  match g with
+  | [] => true
+  | t :: r => match r with
+              | [] => N.eqb (tnext t) 0
+              | u :: _ => N.eqb (tnext t) (th u) && spec_links r
+              end
+  end.
+
+Definition spec_group (c : cfg) (g : list tx) : bool :=
+  match g with
+  | [] => false
+  | hd :: tl =>
+      N.eqb (thdr hd) (th hd)
+      && forallb (fun t => N.eqb (thdr t) (thdr hd)) tl
+      && forallb (fun t => tgc t =? Z.of_nat (length g)) g
+      && spec_links g
+      && forallb (fun t => tfee t =? 0) tl
+      && forallb (fun t => tsize t <=? c_maxsize c) g
+      && (fold_right (fun t a => (tsize t / 1000 + 1) * c_minfee c + a) 0 g <=? tfee hd)
+      && ((c_maxfee c <=? 0) || (tfee hd <=? c_maxfee c))
+      && (negb (c_strict c) || forallb (fun t => tchain t =? c_chain c) g)
+  end.
+
+(** the block's list splits into single transactions and whole groups of 2..20 members *)
+Fixpoint spec_fees (n : nat) (c : cfg) (txs : list tx) : bool :=
+  match txs with
+  | [] => true
+  | t :: r =>
+      match n with
+      | O => false
+      | S n' =>
+          if tgc t =? 0 then spec_single c t && spec_fees n' c r
+          else let k := Z.to_nat (tgc t) in
+               (2 <=? tgc t) && (tgc t <=? 20) && (k <=? length txs)%nat
+               && spec_group c (firstn k txs) && spec_fees n' c (skipn k txs)
+      end
+  end.
+
+Definition spec_block (c : cfg) (h bt : Z) (txs : list tx) : bool :=
+  forallb (fun t => spec_live c (texp t) h bt) txs && spec_fees (length txs) c txs.
 
 Fixpoint nodupN (l : list N) : bool :=
   match l with
@@ -40,7 +93,7 @@ Fixpoint nodupN (l : list N) : bool :=
 Definition spec_unique (l : list blk) : bool := nodupN (map th (chain_txs l)).
 
 Definition spec_checked (c : cfg) (l : list blk) : bool :=
-  forallb (fun b => (b_h b <=? 0) || forallb (spec_tx c (b_h b) (b_time b)) (b_txs b)) l.
+  forallb (fun b => (b_h b <=? 0) || spec_block c (b_h b) (b_time b) (b_txs b)) l.
 
 Definition spec_signed (l : list blk) : bool :=
   forallb (fun b => (b_h b <=? 0) || forallb tsig (b_txs b)) l.
